@@ -187,7 +187,12 @@ func (w *world) do(method string, sh shape, c cred, b body) result {
 		lastPosted = b.data
 	}
 
-	res := serve(method, sh.path, c, b)
+	var res result
+	if w.faultLimit >= 0 {
+		withFileSizeLimit(uint64(w.faultLimit), func() { res = serve(method, sh.path, c, b) })
+	} else {
+		res = serve(method, sh.path, c, b)
+	}
 
 	t.Checked("C17.responds")
 	t.Checked("C12.http_responds")
